@@ -192,8 +192,9 @@ def deco_name(d: ast.AST) -> str:
 
 
 class Program:
-    def __init__(self, root: Optional[Path] = None, overrides: Optional[Dict[str, str]] = None):
+    def __init__(self, root: Optional[Path] = None, overrides: Optional[Dict[str, str]] = None, normalize: bool = True):
         self.root = Path(root) if root else repo_root()
+        self.normalize = normalize
         self.modules: Dict[str, Module] = {}
         self.funcs: Dict[str, Func] = {}
         self.classes: Dict[str, Class] = {}       # by class name (unique in this package)
@@ -226,9 +227,14 @@ class Program:
                 tree = ast.parse(src, filename=rel)
             except SyntaxError as e:
                 raise AnalysisError(f"{rel} does not parse: {e}")
-            _set_parents(tree)
             mod = Module(name=fname[:-3], relpath=rel, src=src, tree=tree)
             self.modules[mod.name] = mod
+        self.inlined, self.not_inlined = [], []
+        if self.normalize:
+            from .normalize import inline_new_helpers
+            self.inlined, self.not_inlined = inline_new_helpers({m.name: m.tree for m in self.modules.values()})
+        for mod in self.modules.values():
+            _set_parents(mod.tree)
         self.digest = h.hexdigest()[:16]
 
     # ----------------------------------------------------------------- index
